@@ -118,7 +118,7 @@ theorem CInv.same {src : Bytes} {s s' : St} {U : List Block} (h : CInv src s U) 
 structure CInvX (X : Nat → Prop) (src : Bytes) (s : St) (U : List Block) : Prop where
   inv : ∃ B, Inv src B s
   tree : TreeOK s
-  pad : ∀ i, isRaw (nd s i).kind = false → Closed (nd s i) ∨ (∃ b ∈ U, b.node = i ∧ PS b) ∨ X i
+  pad : ∀ i, isRaw (nd s i).kind = false → Closed (nd s i) ∨ (∃ b ∈ U, b.node = i ∧ PSb b) ∨ X i
   att : ∀ b ∈ U, (nd s b.node).parent.isSome = true
   inj : ∀ a ∈ U, ∀ b ∈ U, a.node = b.node → a = b
   sub : ∀ b ∈ U, b ∈ s.pc.opened
@@ -130,7 +130,7 @@ theorem CInv.toX {src : Bytes} {s : St} {U : List Block} (h : CInv src s U) (X :
     · exact .inr (.inl hc), h.att, h.inj, h.sub⟩
 
 theorem CInvX.toCInv {X : Nat → Prop} {src : Bytes} {s : St} {U : List Block} (h : CInvX X src s U)
-    (hx : ∀ i, X i → isRaw (nd s i).kind = false → Closed (nd s i) ∨ ∃ b ∈ U, b.node = i ∧ PS b) : CInv src s U :=
+    (hx : ∀ i, X i → isRaw (nd s i).kind = false → Closed (nd s i) ∨ ∃ b ∈ U, b.node = i ∧ PSb b) : CInv src s U :=
   ⟨h.inv, h.tree, fun i hr => by
     rcases h.pad i hr with hc | hc | hc
     · exact .inl hc
